@@ -19,6 +19,7 @@ import numpy as np
 
 from . import env  # noqa: F401
 from graphslam.edge.base_edge import BaseEdge
+from graphslam.edge.edge_odometry import EdgeOdometry
 from graphslam.util import upper_triangular_matrix_to_full_matrix
 
 SPECIAL_LITERALS = [(".5", 0.5), ("5.", 5.0), ("1E3", 1000.0), ("-.25", -0.25), ("+2", 2.0), ("1e-3", 0.001), ("0", 0.0), ("-0", -0.0), ("00.5", 0.5), ("2.5e+0", 2.5), ("-1E-2", -0.01), ("7", 7.0), ("-3", -3.0), ("1e0", 1.0), ("1.e-3", 0.001), ("-7.", -7.0), ("+.5E1", 5.0), ("3.E2", 300.0)]
@@ -72,7 +73,27 @@ class EdgeVfTri(BaseEdge):
         return None
 
 
+def claims_se2_line(i, j):
+    """Which EDGE_SE2 lines the partial-claim custom type below takes (the others are left to the built-in odometry edge)."""
+    return abs(int(i) - int(j)) >= 2 and (int(i) + int(j)) % 3 == 0
+
+
+class EdgeVfLoopSE2(EdgeOdometry):
+    """A custom type that claims only SOME lines of a built-in tag: EDGE_SE2 lines between certain non-consecutive ids are loop
+    closures of this class (same numbers, same export); for every other line its from_g2o declines by returning None."""
+
+    @classmethod
+    def from_g2o(cls, line, g2o_params_or_none=None):
+        if line.startswith("EDGE_SE2 "):
+            t = line[len("EDGE_SE2 "):].split()
+            if len(t) >= 2 and claims_se2_line(t[0], t[1]):
+                e = EdgeOdometry.from_g2o(line, g2o_params_or_none)
+                return cls(e.vertex_ids, e.information, e.estimate)
+        return None
+
+
 CUSTOM_TYPES = [EdgeVfDist, EdgeVfTri]
+CUSTOM_TYPES_WITH_PARTIAL_CLAIM = [EdgeVfDist, EdgeVfTri, EdgeVfLoopSE2]  # C14 only
 
 JUNK_LINES = [
     "# a comment",
